@@ -2,7 +2,7 @@
 import ast
 
 from ..model import AnalysisError, Model, walk_no_nested, norm_stmt, names_in
-from .. import flow, siblings, dispatch
+from .. import flow, siblings, dispatch, sem
 
 EXPLANATION = (
     'Decided on codecs/jer.py and codecs/xer.py: (R1) every type class that defines encode defines decode, and every XER class that overrides '
@@ -116,17 +116,29 @@ def check(ctx):
     xb = model.cls(XER, 'Boolean')
     written = set()
     tested = set()
-    for mn in ('encode', 'encode_of'):
-        if mn not in xb.methods:
-            continue
-        for n in walk_no_nested(xb.methods[mn]):
-            if isinstance(n, ast.IfExp) and isinstance(n.body, ast.Constant) and isinstance(n.orelse, ast.Constant):
-                written |= {n.body.value, n.orelse.value}
-    for mn in ('decode', 'decode_of'):
-        if mn not in xb.methods:
-            continue
-        for n in walk_no_nested(xb.methods[mn]):
-            if isinstance(n, ast.Constant) and isinstance(n.value, str) and n.value in ('true', 'false', 'TRUE', 'FALSE', 'True', 'False'):
+
+    def with_helpers(names):
+        fs = [xb.methods[mn] for mn in names if mn in xb.methods]
+        seen = list(fs)
+        for f_ in fs:
+            for c_ in walk_no_nested(f_):
+                if isinstance(c_, ast.Call) and isinstance(c_.func, ast.Attribute) and isinstance(c_.func.value, ast.Name) and c_.func.value.id in ('self', 'Boolean', 'cls'):
+                    r_ = xb.find_method(c_.func.attr)
+                    if r_ and r_[1] not in seen and r_[1].name not in ('encode', 'decode', 'encode_of', 'decode_of'):
+                        seen.append(r_[1])
+                elif isinstance(c_, ast.Call) and isinstance(c_.func, ast.Name):
+                    r_ = xb.mod.resolve_name(c_.func.id)
+                    if isinstance(r_, ast.FunctionDef) and r_ not in seen:
+                        seen.append(r_)
+        return seen
+    NAMES = ('true', 'false', 'TRUE', 'FALSE', 'True', 'False')
+    for f_ in with_helpers(('encode', 'encode_of')):
+        for n in walk_no_nested(f_):
+            if isinstance(n, ast.Constant) and isinstance(n.value, str) and n.value in NAMES:
+                written.add(n.value)
+    for f_ in with_helpers(('decode', 'decode_of')):
+        for n in walk_no_nested(f_):
+            if isinstance(n, ast.Constant) and isinstance(n.value, str) and n.value in NAMES:
                 tested.add(n.value)
     n2 += 1
     ok = written == {'true', 'false'} and tested <= written and 'true' in tested
@@ -143,26 +155,39 @@ def check(ctx):
     if table is None:
         raise AnalysisError('jer.Real.decode: special value table not found')
     dparam = flow.param_names(enc)[1]
-    for n in walk_no_nested(enc):
-        if isinstance(n, ast.Return) and isinstance(n.value, ast.Constant) and isinstance(n.value.value, str):
-            s = n.value.value
-            gs = flow.guards_of(n, enc)
-            last = [t for t, pol in gs if pol]
-            want = None
-            if last:
-                t = last[-1]
-                if isinstance(t, ast.Compare) and isinstance(t.ops[0], ast.Eq) and ast.unparse(t.left) == dparam and len(t.comparators) == 1:
-                    want = ast.unparse(t.comparators[0])
-                elif ast.unparse(t) == 'math.isnan(%s)' % dparam:
-                    want = "float('nan')"
-            n2 += 1
-            ok = s in table and want is not None and table[s] == want
-            ctx.instance('C02.R2', 'jer.Real %r: encoder guard value %s, decoder maps to %s' % (s, want, table.get(s)), 'inverse' if ok else 'VIOLATION', node=n, file=JER)
-            if not ok:
-                ctx.violation('C02.R2', JER, n, '%s::Real.encode' % JER,
-                              'the encoder returns the special spelling %r under `%s`; the decoder maps %r to %s -- not the value it was emitted for%s, so that REAL does not round-trip'
-                              % (s, ast.unparse(last[-1]) if last else '?', s, table.get(s, '<missing key>'), '' if want else ' (guard is not of the form `data == <value>`)'),
-                              stmt='special spelling %r' % s)
+    eps = sem.paths(enc) or []
+    seen_sp = set()
+    for p in eps:
+        if p.outcome[0] != 'return' or not (isinstance(p.outcome[3], ast.Constant) and isinstance(p.outcome[3].value, str)):
+            continue
+        sp = p.outcome[3].value
+        if sp in seen_sp:
+            continue
+        seen_sp.add(sp)
+        want = None
+        shown = '?'
+        for c in reversed(p.conds):
+            if not c[1] or len(c) < 6:
+                continue
+            e = c[4]
+            shown = ast.unparse(e)
+            if isinstance(e, ast.Compare) and len(e.ops) == 1 and isinstance(e.ops[0], ast.Eq):
+                l, r = e.left, e.comparators[0]
+                if isinstance(l, ast.Name) and l.id == dparam:
+                    want = ast.unparse(r)
+                elif isinstance(r, ast.Name) and r.id == dparam:
+                    want = ast.unparse(l)
+            elif isinstance(e, ast.Call) and ast.unparse(e.func) in ('math.isnan', 'isnan') and e.args and ast.unparse(e.args[0]) == dparam:
+                want = "float('nan')"
+            break
+        n2 += 1
+        ok = sp in table and want is not None and table[sp] == want
+        ctx.instance('C02.R2', 'jer.Real %r: encoder guard value %s, decoder maps to %s' % (sp, want, table.get(sp)), 'inverse' if ok else 'VIOLATION', node=p.outcome[2], file=JER)
+        if not ok:
+            ctx.violation('C02.R2', JER, p.outcome[2], '%s::Real.encode' % JER,
+                          'the encoder returns the special spelling %r under `%s`; the decoder maps %r to %s -- not the value it was emitted for%s, so that REAL does not round-trip'
+                          % (sp, shown, sp, table.get(sp, '<missing key>'), '' if want else ' (guard is not of the form `data == <value>`)'),
+                          stmt='special spelling %r' % sp)
     if n2 < 5:
         raise AnalysisError('C02.R2 saw only %d literal agreements' % n2)
 
@@ -211,23 +236,46 @@ def check(ctx):
 
     # ---- R4
     ix = model.func(XER, 'indent_xml')
+
+    def mod_resolver(mod):
+        def resolve(call):
+            if isinstance(call.func, ast.Name):
+                r_ = mod.resolve_name(call.func.id)
+                return r_ if isinstance(r_, ast.FunctionDef) else None
+            return None
+        return resolve
+    ps = sem.paths(ix, resolver=mod_resolver(model.mod(XER)))
     bad = []
-    for n in walk_no_nested(ix):
-        if isinstance(n, ast.Assign) and isinstance(n.targets[0], ast.Attribute) and n.targets[0].attr == 'text':
-            gs = [ast.unparse(t) for t, pol in flow.guards_of(n, ix) if pol]
-            if not any(g.startswith('len(element)') or g == 'len(element)' for g in gs) or not any('strip()' in g for g in gs):
-                bad.append(n)
-    ctx.instance('C02.R4', 'indent_xml sets .text only on blank text of elements with children', 'ok' if not bad else 'VIOLATION', node=ix, file=XER)
-    for n in bad:
-        ctx.violation('C02.R4', XER, n, Model.qual(ix), 'indentation overwrites the text of a leaf element (a value) or non-blank text', stmt='indent text')
+    ntext = 0
+    if ps is None:
+        ctx.instance('C02.R4', 'indent_xml sets .text only on blank text of elements with children', 'undecided', 'too many paths', nontrivial=False, node=ix, file=XER)
+    else:
+        for p in sem.with_loop_bodies(ps):
+            for ev in p.events:
+                if ev[0] == 'store' and len(ev) > 4 and ev[1].split(' = ')[0].endswith('.text'):
+                    ntext += 1
+                    owner = ev[1].split(' = ')[0][:-len('.text')]
+                    before = [(c[0], c[1]) for c in p.conds[:ev[4]]]
+                    has_children = (owner, True) in before
+                    blank = any(t.startswith(owner + '.text') and not pol for t, pol in before)
+                    if not (has_children and blank) and ev[2] not in bad:
+                        bad.append(ev[2])
+        ctx.instance('C02.R4', 'indent_xml sets .text only on blank text of elements with children (%d assignments on the paths)' % ntext, 'ok' if not bad and ntext else ('VIOLATION' if bad else 'undecided'),
+                     nontrivial=ntext > 0, node=ix, file=XER)
+        for n in bad:
+            ctx.violation('C02.R4', XER, n, Model.qual(ix), 'indentation overwrites the text of a leaf element (a value) or non-blank text', stmt='indent text')
     je = model.func(JER, 'CompiledType.encode')
-    src = ast.unparse(je)
-    ok = src.count('json.dumps(dictionary') == 2 and 'indent=indent' in src
+    jv = sem.View(je)
+    dumps = [c for c in sem.method_calls(je, 'dumps', jv) if c.args]
+    objs = {jv.text(c.args[0]) for c in dumps}
+    ok = len(dumps) >= 1 and len(objs) == 1 and any(any(k.arg == 'indent' for k in c.keywords) for c in dumps)
     ctx.instance('C02.R4', 'JER indentation is json.dumps(indent=...) of the same object', 'ok' if ok else 'VIOLATION', node=je, file=JER)
     if not ok:
         ctx.violation('C02.R4', JER, je, Model.qual(je), 'the indented and the compact JER outputs are no longer json.dumps of the same object', stmt='json indent')
     xd = model.func(XER, 'CompiledType.encode')
-    ok = 'if indent is not None:' in ast.unparse(xd) and 'indent_xml(element' in ast.unparse(xd)
+    xps = sem.paths(xd) or []
+    with_ = [p for p in xps if p.calls('indent_xml')]
+    ok = bool(with_) and all(p.has('indent is None', False) for p in with_) and any(not p.calls('indent_xml') and p.outcome[0] == 'return' for p in xps)
     ctx.instance('C02.R4', 'XER indentation is applied to the finished tree only when requested', 'ok' if ok else 'VIOLATION', node=xd, file=XER)
     if not ok:
         ctx.violation('C02.R4', XER, xd, Model.qual(xd), 'indent_xml is no longer applied conditionally to the finished element tree', stmt='xml indent')
